@@ -24,6 +24,10 @@ from pyvc.builtins import Engine
 from .cache_class import map_eq, _new_consts, x_
 
 
+class ContractMisuse(Unsupported):
+    """a caller uses an assumed primitive outside its contract: an obligation failure, not a limit of the translation"""
+
+
 class ArchCase(object):
     def __init__(self):
         self.unsupported = None
@@ -83,6 +87,9 @@ class ArchCase(object):
 
     def _c_save(self, I, st, ca):
         self_ = ca.pos[0]
+        if len(ca.pos) > 2 or set(ca.kw) - {'memo'} or not ca.plain():
+            # the contract is that of  __save__(memo): a caller that passes anything else is outside it
+            raise ContractMisuse('__save__ called with %r: outside the contract of __save__(memo)' % (ca,))
         memo = ca.pos[1] if len(ca.pos) > 1 else ca.kw.get('memo', NONE)
         if isinstance(memo, NoneV):
             return [(st, NONE)]
@@ -239,6 +246,10 @@ def obligations(case):
         I.obligations = []
         try:
             real = I.call_method(st.fork(), ref, meth, CallArgs(list(pos)))
+        except ContractMisuse as e:
+            obs.append(Obligation(fn + '/uses_primitives_within_their_contract', [], z3.BoolVal(False), prop='C03', func=fn, path=str(e)[:200],
+                                  info={'case': fam, 'op': label}))
+            continue
         except Unsupported as e:
             obs.append(Obligation(fn + '/supported', [], z3.BoolVal(False), prop='C03', func=fn, path=str(e)[:200],
                                   info={'case': fam, 'op': label, 'unsupported': str(e)}))
